@@ -1300,9 +1300,20 @@ int32_t jls_core_repair_fsr(struct jls_core_s * self, uint16_t signal_id) {
             break;
         }
         index_head = self->chunk_cur;
+        if ((self->chunk_cur.hdr.tag != JLS_TAG_TRACK_FSR_INDEX)
+                || (self->chunk_cur.hdr.payload_length > (sizeof(struct jls_fsr_index_s) + lvl->index_entries * sizeof(int64_t)))) {
+            JLS_LOGW("repair_fsr signal_id %d: not an index chunk for level %d", (int) signal_id, (int) level);
+            break;  // a broken link: do not copy an unknown chunk into the index buffer
+        }
         memcpy(lvl->index, self->buf->start, self->chunk_cur.hdr.payload_length);
 
         if (jls_core_rd_chunk(self)) {  // read summary
+            break;
+        }
+        if ((self->chunk_cur.hdr.tag != JLS_TAG_TRACK_FSR_SUMMARY)
+                || (self->chunk_cur.hdr.payload_length > (sizeof(struct jls_fsr_f32_summary_s)
+                    + (((size_t) lvl->summary_entries) * lvl->summary->header.entry_size_bits) / 8))) {
+            JLS_LOGW("repair_fsr signal_id %d: not a summary chunk for level %d", (int) signal_id, (int) level);
             break;
         }
         track->index_head[level] = index_head;
@@ -1358,6 +1369,12 @@ int32_t jls_core_repair_fsr(struct jls_core_s * self, uint16_t signal_id) {
         if (jls_raw_chunk_seek(self->raw, offset) || jls_core_rd_chunk(self)) {
             break;
         }
+        if ((self->chunk_cur.hdr.tag != JLS_TAG_TRACK_FSR_DATA)
+                || (self->buf->length > (sizeof(struct jls_payload_header_s)
+                    + (((size_t) signal_info->signal_def.samples_per_data) * jls_datatype_parse_size(signal_info->signal_def.data_type)) / 8))) {
+            JLS_LOGW("repair_fsr signal_id %d: not a data chunk at %" PRIi64, (int) signal_id, offset);
+            break;  // a broken link: do not copy an unknown chunk into the sample buffer
+        }
         memcpy(signal_info->track_fsr->data, self->buf->start, self->buf->length);
         JLS_LOGI("repair_fsr signal_id %d, level %d, offset %" PRIi64 " sample_id %" PRIi64 " to %" PRIi64 " data[0]=%f",
                  (int) signal_id, (int) level, offset,
@@ -1366,6 +1383,7 @@ int32_t jls_core_repair_fsr(struct jls_core_s * self, uint16_t signal_id) {
                  signal_info->track_fsr->data->data[0]);
         signal_info->track_fsr->data_length = signal_info->track_fsr->data->header.entry_count;
 
+        jls_raw_seek_end(self->raw);  // the summary may complete a level 1 chunk, which is appended
         if (!skip_summary && jls_core_fsr_summary1(signal_info->track_fsr, offset)) {
             JLS_LOGW("could not create summary - repair may not work");
         }
